@@ -26,7 +26,7 @@ Import ListNotations.
 From HV Require Import lib.Harness model.Validity model.Builder spec.BuilderS proofs.BuilderP proofs.BuilderExtP
   spec.BuilderWFS proofs.BuilderFrameP proofs.BuilderRulesP proofs.BuilderTypeP
   proofs.BuilderAcyclicP proofs.BuilderNonLocalP proofs.BuilderInputsP proofs.BuilderLinearP proofs.BuilderCopyP
-  model.Builder2 proofs.Builder2EmbP spec.Builder2WFS proofs.Builder2P.
+  model.Builder2 proofs.Builder2EmbP spec.Builder2WFS proofs.Builder2P proofs.Builder2FrameP proofs.Builder2RulesP.
 
 (* Proved for ALL programs of the modelled language, with no well-formedness premise: whenever the
    builder calls do not raise, the serialised document satisfies
@@ -229,3 +229,12 @@ Theorem C01_builder2_example : croot_ok ex4_prog = true /\ exists g, run2 ex4_ty
   existsb (fun n => match n_op n with Conditional _ _ _ _ => true | _ => false end) (g_nodes g) = true.
 Proof. exact ex4_runs. Qed.
 Print Assumptions C01_builder2_example.
+
+(* Third pass.  For ALL programs of the extended language (premise croot_ok only): rule 6 (no edge touches the root:
+   the interpreter's environment never names the root, insert_hugr shifts every inserted link above the insertion
+   point), rule 13 (no FuncDefn occurs, so no value edge enters a function body), rule 16 (no control-flow edges). *)
+Theorem C01_builder2_root_func_cfg : forall tys p g,
+  croot_ok p = true -> run2 tys p = Ok g ->
+  r_root_no_edges g = true /\ r_no_edge_into_func tys g = true /\ r_cfg_edges g = true.
+Proof. exact run2_root_func_cfg. Qed.
+Print Assumptions C01_builder2_root_func_cfg.
